@@ -3,7 +3,7 @@
 TB_COMMON = [
     "Lean 4.33 kernel; axioms limited to propext, Quot.sound, Classical.choice (audited per theorem from #print axioms)",
     "statements in lean/InjModel/Props and the executable property predicates in lean/Driver",
-    "translate/extract.py (Rust -> Generated/*.lean) and the correspondence harness (harness/: shim libc, shadow crate build.rs transformations, generators)",
+    "translate/extract.py (Rust -> Generated/*.lean; items it does not recognise keep the pinned value of translate/pinned.json and are listed in coverage.translator) and the correspondence harness (harness/: shim libc, shadow crate build.rs transformations, generators)",
     "all of /repo is modelled, not verified: the tie is the differential correspondence run on every check",
 ]
 ISA_X86 = "hand-written x86-64 ISA fragment (E9 rel32, REX.W B8 imm64, FF E0, REX.W C7 C0 imm32, C3) in Model/X86.lean, validated against the real CPU by native runs"
@@ -163,7 +163,7 @@ SIG_PIPE = {"name": "sigs", "cmd": ["sigs"], "n_quick": 1, "n_thorough": 1, "tim
 SIG_RULE = ("a family of 36 function-pointer types differing in arity (0-3), one parameter type, return type, reference mutability, raw-pointer mutability, unsafety, ABI (Rust, C, system), "
             "including adversarial return types that end in `-> bool` (fn() -> bool, *const fn() -> bool, &dyn Fn() -> bool), a user type named bool, (bool,), Option<bool>: "
             "rustc's type_name of every type vs the model's rendering; all 1296 ordered pairs through func!/func!, plus closure! and fake! replacements, typed-with-unchecked both ways, null pointers, "
-            "all 36 ordered pairs of async output types, and the forced-boolean gate on every family type; pairs differing only in lifetime spelling are run but not judged. Exhaustive over the family")
+            "all 36 ordered pairs of async output types, and the forced-boolean gate on every family type and on every string of up to 5 (thorough: 6) tokens over {fn ( ) -> bool u8 , &} passed as the recorded signature text; pairs differing only in lifetime spelling are run but not judged. Exhaustive over the family")
 TABLE["C09"] = {
     "pipelines": [SIG_PIPE],
     "fail_keys": ["c09."],
@@ -177,7 +177,7 @@ TABLE["C09"] = {
 TABLE["C10"] = {
     "pipelines": [SIG_PIPE, {"name": "enc-x86-debug", "cmd": ["enc-x86"], "n_quick": 10, "n_thorough": 10}, HIST_PIPE],
     "fail_keys": ["c10.", "c01.follow"],
-    "filter_prefix": ["boolgate", "x86bool", "hist"],
+    "filter_prefix": ["boolgate", "boolstr", "x86bool", "hist"],
     "trusted_base": TB_COMMON + [ISA_X86, "type_name grammar as for C09"],
     "rule": SIG_RULE + "; the stub bytes for both values run through the ISA fragment from a sentinel register file with a return address on the stack; boolean installs inside the install/drop histories are really called (value 0/1 observed)",
     "assumptions": ["x86-64 ISA fragment"],
@@ -206,3 +206,30 @@ TABLE["C13"] = {
     "level_text": "Theorems: on x86-64, for every placement and CPU state, control arrives at the fake with all six integer argument registers, all vector registers, callee-saved registers, rsp and flags unchanged and no store executed (C13_x86, from C01_reach); on AArch64 the trampoline writes only x9, the entry B nothing, the macOS long entry only x16 (C13_a64_*); on 32-bit ARM the callee-saved clause is proved false (C13_a32_callee_saved_false = finding F6, reported as KNOWN-FINDING). Correspondence: assembly probe on the real CPU for both trampoline forms.",
     "level_note": "Arm behaviour is from the manuals only (no hardware/emulator).",
 }
+
+
+# which properties a translator item matters to (prefix of "File.name" -> property ids); used to
+# decide whose correspondence budget is enlarged when the item was not recognised in the source
+MACHINE_PROPS = ["C01", "C02", "C03", "C05", "C10", "C12", "C13", "C14", "C17"]
+FALLBACK_RELEVANCE = [
+    ("Consts.x86", MACHINE_PROPS),
+    ("Consts.jmp", MACHINE_PROPS), ("Consts.mov", MACHINE_PROPS),
+    ("Consts.linuxMaxRange", ["C11"] + MACHINE_PROPS), ("Consts.macosMaxRange", ["C11", "C15"]),
+    ("Consts.a64", ["C15", "C13", "C11"]), ("Consts.emit", ["C15", "C13"]), ("Consts.movz", ["C15", "C13"]), ("Consts.movk", ["C15", "C13"]),
+    ("Consts.arm", ["C16", "C13"]),
+    ("Layout.boolGate", ["C10", "C05"]),
+    ("Layout.verifier", ["C05", "C06", "C07", "C04", "C02"]),
+    ("Layout.counterResetOnInstall", ["C07", "C06"]),
+    ("Layout.", ["C02", "C04", "C05", "C09", "C10", "C14", "C12", "C17"]),
+]
+
+
+def relevant_fallback(pid, items):
+    out = []
+    for it in items:
+        for pref, props in FALLBACK_RELEVANCE:
+            if it.startswith(pref):
+                if pid in props:
+                    out.append(it)
+                break
+    return out
